@@ -22,7 +22,7 @@ TOK = re.compile(r"""\s*(?:
     (\d[\d_]*\.\d[\d_]*(?:_?f32)?|\d[\d_]*(?:_?(?:i64|u16|usize|f32|u8|i8))?) |
     ('[a-z_]+\b(?!')) |
     ([A-Za-z_][A-Za-z0-9_]*) |
-    (::|->|=>|<=|>=|==|!=|\+=|-=|\*=|/=|&&|\|\||\.\.|[-+*/<>=(){}\[\],;.&!:|?\#@]) |
+    (::|->|=>|<=|>=|==|!=|\+=|-=|\*=|/=|&&|\|\||\.\.|[-+*/<>=(){}\[\],;.&!:|?\#@%^~$]) |
     ("(?:[^"\\]|\\.)*")
 )""", re.X | re.S)
 
@@ -265,10 +265,11 @@ class P:
             if self.at("let"):
                 self.eat("let")
                 p = self.pattern()
+                tyids = []
                 if self.at(":"):
-                    self.eat(":"); self.skip_type()
+                    self.eat(":"); a0 = self.i; self.skip_type(); tyids = [vv for kk, vv in self.t[a0:self.i] if kk == "id"]
                 self.eat("="); e = self.expr(); self.eat(";")
-                stmts.append(("let", p, e))
+                stmts.append(("let", p, e, tyids))
                 continue
             if self.at("for"):
                 self.eat("for"); _, x = self.eat(); self.eat("in"); coll = self.expr(nostruct=True)
@@ -279,6 +280,15 @@ class P:
                 continue
             if self.at("while"):
                 raise ParseError("while loops are outside the translated subset")
+            if (self.at("if") or self.at("match") or (self.at("unsafe") and self.at("{", 1))) and self.peek()[0] == "id":
+                # a block-like expression statement ends at its closing brace (`if .. {} *self = ..` is two statements)
+                e = self.primary(False)
+                if self.at("}"):
+                    tail = e
+                else:
+                    if self.at(";"): self.eat(";")
+                    stmts.append(("expr", e))
+                continue
             e = self.expr()
             if self.at("=") or self.peek()[1] in ("+=", "-=", "*=", "/="):
                 op = self.eat()[1]; r = self.expr()
@@ -475,6 +485,12 @@ class P:
                 arms.append((p, body))
             self.eat("}")
             return ("match", scrut, arms)
+        if v == "if" and self.peek(1)[1] == "let":
+            self.eat("if"); self.eat("let"); p = self.pattern(); self.eat("="); scrut = self.expr(nostruct=True)
+            th = self.block(); el = ("tuple0",)
+            if self.at("else"):
+                self.eat("else"); el = self.primary(ns) if self.at("if") else self.block()
+            return ("match", scrut, [(p, th), (("pwild",), el)])
         if v == "if":
             self.eat(); c = self.expr(nostruct=True); th = self.block(); el = None
             if self.at("else"):
@@ -537,6 +553,8 @@ class Emitter:
         self.tmp = 0
         self.depth = 0
         self.inputs = set()
+        self.kinds = {}               # local variable -> "State" / "Command": which Terminal impl a get / set on it means
+        self.expected_kind = None
         self.dispatch = None          # e.g. "State": which of several impls of one trait for the same type is meant
         self.int_vars = set()         # locals initialised with an integer literal: usize counters
         self.array_input = None       # the field iterated by `for _ in &self.<field>`: its length is the const generic N
@@ -567,6 +585,34 @@ class Emitter:
         if k == "unary" and e[1] in ("-", "*", "&"): return self.is_int(e[2])
         if k == "bin" and e[1] in OPS: return self.is_int(e[2]) and self.is_int(e[3])
         return False
+
+    def kind_of(self, e):
+        """the payload kind (State / Command) of the first local with a known kind in an expression"""
+        if isinstance(e, tuple):
+            if e and e[0] == "path" and len(e[1]) == 1 and e[1][0] in self.kinds:
+                return self.kinds[e[1][0]]
+            for y in e:
+                r = self.kind_of(y)
+                if r: return r
+        elif isinstance(e, list):
+            for y in e:
+                r = self.kind_of(y)
+                if r: return r
+        return None
+
+    def bind_kinds(self, p, kind):
+        if not kind or not isinstance(p, tuple): return
+        if p[0] == "pvar": self.kinds[p[1]] = kind
+        for y in p[1:]:
+            if isinstance(y, list):
+                for z in y: self.bind_kinds(z, kind)
+            elif isinstance(y, tuple): self.bind_kinds(y, kind)
+
+    def is_terminal(self, x):
+        if x[0] == "field" and x[1] == ("path", ["self"]):
+            st = self.enums.get("__structs__", {}).get((self.self_key or "").split("<")[0], {})
+            return st.get(x[2]) == "Terminal"
+        return x[0] == "path" and len(x[1]) == 1 and self.kinds.get(x[1][0]) == "Terminal"
 
     def is_usize(self, e):
         k = e[0]
@@ -833,6 +879,26 @@ class Emitter:
             raise ParseError("call of %r" % (fn,))
         if k == "mcall":
             recv, name, args = e[1], e[2], e[3]
+            if name == "get" and not args and recv[0] == "mcall" and recv[2] == "borrow" and self.is_terminal(recv[1]):
+                # a terminal of the device itself: its Getter<State> / Getter<Command> impl, selected by the annotated type
+                if not self.expected_kind: raise ParseError("read of a terminal without a type annotation")
+                old = self.dispatch; self.dispatch = self.expected_kind
+                try:
+                    cands = [(kk, f) for (kk, fname), lst in self.fns.items() if kk == "Terminal" and fname == "get"
+                             for f in lst if f["trait"] == "Getter" and self.dispatch in f.get("targs", [])]
+                    if len(cands) != 1: raise ParseError("Terminal::get for %s: %d candidates" % (self.dispatch, len(cands)))
+                    return self.inline_pure(recv[1], cands[0], [])
+                finally:
+                    self.dispatch = old
+            if name == "set" and len(args) == 1 and recv[0] == "mcall" and recv[2] == "borrow_mut" and self.is_terminal(recv[1]):
+                kind = self.kind_of(args[0])
+                if not kind: raise ParseError("set on a terminal: cannot tell whether the datum is a State or a Command")
+                old = self.dispatch; self.dispatch = kind
+                try:
+                    kf = self.find_fn("set", 1, "trait:Settable")
+                    return self.inline_mut(recv[1], kf, args)
+                finally:
+                    self.dispatch = old
             if name == "get" and not args and recv[0] == "mcall" and recv[2] == "borrow":
                 x = recv[1]
                 if x[0] == "field" and x[1] == ("path", ["self"]):
@@ -862,7 +928,9 @@ class Emitter:
                 # a History consulted at a time: an external function of the time
                 self.inputs.add(recv[2])
                 return "(ECallFn (EVar %s) %s)" % (qs("get:" + recv[2]), self.expr(args[0]))
-            # calls of the crate's own functions: inline the translated body
+            # calls of the crate's own functions: inline the translated body (a RefCell borrow is transparent)
+            while recv[0] == "mcall" and recv[2] in ("borrow", "borrow_mut") and not recv[3]:
+                recv = recv[1]
             hint = None
             if recv[0] == "field" and recv[1] == ("path", ["self"]):
                 st = self.enums.get("__structs__", {}).get((self.self_key or "").split("<")[0], {})
@@ -898,7 +966,12 @@ class Emitter:
                 th = "(ESeq %s EUnit)" % th
             return "(EIf %s %s %s)" % (self.expr(e[1]), th, el)
         if k == "match":
-            return "(EMatch %s %s)" % (self.expr(e[1]), self.lst(["(%s, %s)" % (self.pat(p), self.expr(b)) for p, b in e[2]]))
+            sk = self.kind_of(e[1])
+            arms = []
+            for p, b in e[2]:
+                self.bind_kinds(p, sk)
+                arms.append("(%s, %s)" % (self.pat(p), self.expr(b)))
+            return "(EMatch %s %s)" % (self.expr(e[1]), self.lst(arms))
         if k == "for" and e[2][0] == "range":
             return "(EForRange %s %s %s %s)" % (qs(e[1]), self.expr(e[2][1]), self.expr(e[2][2]), self.expr(e[3]))
         if k == "for":
@@ -928,8 +1001,15 @@ class Emitter:
         if s[0] == "let" and s[1][0] == "pvar" and s[2][0] == "num" and "." not in s[2][1]:
             self.int_vars.add(s[1][1])
         if s[0] == "let":
-            rest = self.block(stmts[1:], tail)      # NB: evaluation order is that of the emitted term, not of emission
-            return "(ELet %s %s %s)" % (self.pat(s[1]), self.expr(s[2]), rest)
+            tyids = s[3] if len(s) > 3 else []
+            ann = "State" if "State" in tyids else ("Command" if "Command" in tyids else None)
+            old = self.expected_kind
+            self.expected_kind = ann
+            rhs = self.expr(s[2])
+            self.expected_kind = old
+            self.bind_kinds(s[1], ann or self.kind_of(s[2]))
+            rest = self.block(stmts[1:], tail)
+            return "(ELet %s %s %s)" % (self.pat(s[1]), rhs, rest)
         first = self.expr(s[1])
         rest = self.block(stmts[1:], tail)
         return "(ESeq %s %s)" % (first, rest)
